@@ -36,6 +36,7 @@ Requirements for the change
   sequence of operations, an unusual input, or two cooperating sites that each look fine alone - NOT something ordinary use or the
   existing tests would expose at once. {FLAV.get(flav, flav)}
 * Read the code first and pick a mechanism that really carries the property; vary away from the most obvious line.
+* Never use `git stash` (the stash is shared between worktrees): switch between clean and patched with `git apply` / `git apply -R`.
 * Keep it small (typically 1-15 changed lines), production code only (no changes to existing *_test.go files, no build tags).
 
 Deliverables, all inside {wt}/seed/ (create the directory; leave the rest of the worktree CLEAN, i.e. `git checkout -- .` at the end
